@@ -289,6 +289,48 @@ def run_matrix_check(tier):
                        assumptions=["well-formedness is observed at build time of the generated unit, the same unit is then executed under the sanitizers (see DESIGN.md C20)"])
 
 
+# ---------------------------------------------------------------------------------------------- C13 / C14 cmp
+CMP_CONFIGS = [
+    # memcmp-able for == and < (unsigned byte types), without and with padding
+    ("P:u8,F:u8", "std"), ("F:u8", "s000"), ("P:u8,P:byte", "s111"), ("P:u8,P:u8@4", "s000"), ("F:u8@8,P:u8", "s010"), ("P:byte@2,F:byte@4", "s100"),
+    # memcmp-able for == only (integral, pointer), without and with padding
+    ("P:u32,P:i16", "s000"), ("P:u16,P:u32@8", "std"), ("P:ptr,F:u64", "s001"), ("P:bool,P:char,P:i8", "s000"), ("P:i32@16,F:i8", "s000d"),
+    # VaryingSize byte lists
+    ("C:u8,V:u8", "s000"), ("C:u64@8,V:u8,P:u8", "std"), ("C:u32,V:u16,P:u8", "s110"), ("F:u8,C:u8,V:u8", "s011"),
+    # element-wise path
+    ("P:u32,P:f32", "std"), ("P:f64,F:f32", "s000"), ("P:str,F:str", "s000"), ("C:u32,V:str,P:Tr8", "s101"), ("P:Tr4,F:Tr8", "s000"), ("P:B3,P:B12@4", "s111d"),
+    ("F:f32,P:u32,C:u64@8,V:f32", "s000"), ("P:u8,C:u16,V:f32@8,P:i8", "std"), ("C:u16,V:f64,C:u8,V:u8", "s000"),
+]
+CMP_RULE = {
+    "C13": "per case a pool of 7 logical elements (equal pair, one-item differences, prefix-related spans, values {0,1,2,255} and for floating fields also -0.0 and NaN) and 10 logical vectors over them, each materialised 3x (exact / spare capacity, 3 junk patterns, 2 arenas, 2 allocator types; references, const references, elements); all ordered pairs in 13 operand-kind combinations; ==/!= compared with field-wise equality of freshly made values; non-trivial: the pool contains a pair differing in exactly one item or prefix-related; distinct: hash of the pool",
+    "C14": "same pools as C13; the six operators on all ordered pairs (13 operand-kind combinations for elements, 5 for vectors) and all triples: >, <=, >= identities, irreflexive, asymmetric, transitive, < implies !=, == excludes <, independence of operand kind / capacity / junk / allocator, vector < against lexicographical comparison under the observed element-level <",
+}
+
+
+def cmp_units(prop, tier, seed):
+    configs = list(CMP_CONFIGS)
+    if tier == "thorough":
+        configs += [(c, k[0]) for c, k in sampled_configs(seed + 100, 40) if vf.cfg_copyable(c)]
+    cases = 150 if tier == "quick" else 2500
+    flavours = ["plain", "asan"] if tier == "quick" else ["plain", "asan", "casan"]
+    if os.environ.get("VERIF_CASES"):
+        cases = int(os.environ["VERIF_CASES"])
+    units = []
+    for cfg, k in configs:
+        for fl in flavours:
+            units.append(Unit("cmp", cfg, k, fl, {"seed": seed}, cases if fl != "casan" else cases // 3, batch=25 if tier == "quick" else 100))
+    return units
+
+
+def run_cmp_check(prop, tier):
+    t0 = time.time()
+    units = cmp_units(prop, tier, vf.SEED)
+    errs = vf.run_units(units)
+    return vf.conclude(prop, tier, "exploration", units, errs, CMP_RULE[prop], t0,
+                       assumptions=["equality oracle: the value type's own operator== on freshly constructed values", "no definition of element-level < is imposed, only the stated axioms and consistency",
+                                    "value types compared by identity (std::unique_ptr) are not part of the pools"])
+
+
 def setup():
     units = []
     for prop in ["C01"]:
@@ -317,6 +359,8 @@ def setup():
 def units_for(prop, tier, seed):
     if prop in HIST_PROPS:
         return hist_units(prop, tier, seed)
+    if prop in ("C13", "C14"):
+        return cmp_units(prop, tier, seed)
     raise KeyError(prop)
 
 
@@ -325,6 +369,8 @@ def run_check(prop, tier):
         return run_hist_check(prop, tier)
     if prop == "C20":
         return run_matrix_check(tier)
+    if prop in ("C13", "C14"):
+        return run_cmp_check(prop, tier)
     sys.stderr.write("no check for %s\n" % prop)
     return 2
 
